@@ -73,3 +73,25 @@ Lemma tie_register_actions : f_action_registerevent = 0%N /\ f_action_unregister
    name is looked up in the declared properties (localize: idx_uid) *)
 Lemma tie_multi_object : f_bomb_object_is_newbasicobject = true /\ f_setproperty_uid_in_meta_properties = true.
 Proof. split; reflexivity. Qed.
+
+(* the optional per-object features (PropertySubs.v: SAux changes nothing; a registration made while they
+   are on is the registration of the connection the message came from).  Tracer wraps the channel of an
+   incoming message in a wrapper allocated for THAT message — so the context a registration keeps is never
+   re-pointed by a later message —, and the wrappers hand every frame to the channel they wrap (EndPoint is
+   the embedded channel's); the entry the closer of a registration forgets is found by (user id, endpoint),
+   as in remove_user (or, before repair acc48f8, there is no such function: the closer calls
+   removeSignalUser) *)
+Lemma tie_tracer_text : f_c14_tracer_text =
+  "func (o *objectImpl) Tracer(msg *net.Message, from Channel) Channel { if o.statsEnabled { from = &statChannel{from, time.Now(), o} } if !o.traceEnabled { return from } traceID := o.nextTrace o.nextTrace++ o.Trace(msg, traceID) return &tracedChannel{from, o, traceID} }".
+Proof. reflexivity. Qed.
+Lemma tie_wrapper_send_text :
+  f_c14_statchannel_send_text =
+  "func (c *statChannel) Send(msg *net.Message) error { c.o.updateMethodStatistics(msg.Header.Action, time.Since(c.since)) return c.Channel.Send(msg) }"
+  /\ f_c14_tracedchannel_send_text =
+  "func (c *tracedChannel) Send(msg *net.Message) error { c.tracer.Trace(msg, c.id) return c.Channel.Send(msg) }".
+Proof. split; reflexivity. Qed.
+Lemma tie_forget_user_text : f_c14_forgetsignaluser_text =
+  "func (o *signalHandler) forgetSignalUser(userID uint64, from Channel) { o.signalsMutex.Lock() defer o.signalsMutex.Unlock() for i, user := range o.signals { if user.userID == userID && from.EndPoint() == user.context.EndPoint() { o.signals[i] = o.signals[len(o.signals)-1] o.signals = o.signals[:len(o.signals)-1] return } } }"
+  \/ f_c14_forgetsignaluser_text = "<missing bus/signal.go:signalHandler.forgetSignalUser>".
+Proof. first [left; reflexivity | right; reflexivity]. Qed.
+Lemma tie_feature_actions : f_action_enablestats = 81%N /\ f_action_enabletrace = 85%N. Proof. split; reflexivity. Qed.
